@@ -42,6 +42,10 @@ class Module:
             self.tree = ast.parse(self.source, filename=str(path))
         except SyntaxError as err:  # pragma: no cover
             raise AnalysisError(f"cannot parse {path}: {err}") from err
+        self.renamed: list = []
+        if not os.environ.get("VERIF_NO_CANON"):
+            from .canon import canonicalise
+            self.tree = canonicalise(self.tree, name, self.renamed)
         for parent in ast.walk(self.tree):
             for child in ast.iter_child_nodes(parent):
                 PARENT[id(child)] = parent
